@@ -502,10 +502,15 @@ def run_case(case, ctx):
     steps = list(range(d)) if d <= 8 else [0, 1, d // 2, d - 2, d - 1]
     for i in steps:
         for inplace in (False, True):
+            if rng.random() < 0.3:
+                # the flag as it comes out of a comparison of numpy integers
+                # or of a configuration file
+                inplace = [np.bool_(inplace), int(inplace)][int(
+                    rng.integers(2))]
             if i <= d - 2:
                 Z = [G.copy() for G in Y]
-                teneva.orthogonalize_left(Z, i, inplace) if inplace else \
-                    teneva.orthogonalize_left(Z, i)
+                teneva.orthogonalize_left(Z, i, inplace) if inplace is not \
+                    False else teneva.orthogonalize_left(Z, i)
             if i >= 1:
                 Z = [G.copy() for G in Y]
                 teneva.orthogonalize_right(Z, i, inplace=inplace)
